@@ -49,18 +49,25 @@ def main():
     parse_single.__qualname__ = "parse_single"
     PM.parse_single = parse_single
     PM.Pool = functools.partial(multiprocessing.Pool, job["pool_size"])
-    inp = {k: v for k, v in job["input"]}
-    t0 = time.time()
-    out = PM.Parser.parse(inp)
-    res = {"order": list(out.keys()), "entries": {}, "wall": time.time() - t0}
-    for k, v in out.items():
-        res["entries"][k] = {
-            "name": v.name,
-            "exception": v.exception.name if v.exception else None,
-            "digests": [hashlib.sha256(a.pretty().encode()).hexdigest()[:16] for a in v.asts],
-            "behaviors": list(v.behaviors),
-        }
-    res["log"] = [l.split() for l in open(logp)]
+    def one_call(pairs):
+        open(logp, "w").close()
+        inp = {k: v for k, v in pairs}
+        t0 = time.time()
+        out = PM.Parser.parse(inp)
+        res = {"order": list(out.keys()), "entries": {}, "wall": time.time() - t0}
+        for k, v in out.items():
+            res["entries"][k] = {
+                "name": v.name,
+                "exception": v.exception.name if v.exception else None,
+                "digests": [hashlib.sha256(a.pretty().encode()).hexdigest()[:16] for a in v.asts],
+                "behaviors": list(v.behaviors),
+            }
+        res["log"] = [l.split() for l in open(logp)]
+        return res
+
+    res = one_call(job["input"])
+    # further Parser.parse calls in the SAME process (a call must not depend on earlier calls)
+    res["followups"] = [one_call(pairs) for pairs in job.get("followups", [])]
     json.dump(res, sys.stdout)
 
 
